@@ -67,7 +67,7 @@ def evaluate(ident, props=None):
     d = os.path.join(ROOT, 'benign', ident)
     meta = json.load(open(os.path.join(d, 'meta.json')))
     g = meta.get('group') or ident.split('-')[0]
-    props = props or (GROUPS[g] + EXTRA.get(g, []))
+    props = props or (GROUPS[g] + ([] if os.environ.get('BENIGN_NO_EXTRA') else EXTRA.get(g, [])))
     base = scratch()
     out = meta.setdefault('evaluation', {})
     try:
